@@ -53,7 +53,7 @@ func genericGuards(r *Run) {
 		r.CheckCallSeq(r.Prop+".Q1", r.Prop+"_"+x.Name+"_calls.json", x.Scope, x.Min/2, false)
 	}
 	if len(spec.SeqScope.Include) > 0 {
-		r.CheckCallSeq(r.Prop+".Q1", r.Prop+"_calls.json", spec.SeqScope, spec.MinSeq, r.Prop == "C11" || r.Prop == "C19")
+		r.CheckCallSeq(r.Prop+".Q1", r.Prop+"_calls.json", spec.SeqScope, spec.MinSeq, false)
 	}
 	if len(spec.StoreScope.Include) > 0 {
 		r.CheckStoreGuards(r.Prop+".V1", r.Prop+"_stores.json", spec.StoreScope, spec.MinStores)
@@ -114,14 +114,15 @@ func checkC17(r *Run) {
 var okFlagExempt = map[string]string{
 	"pkg/base/nt/modular.(*OddPrimeFactors).ModExpI -> pkg/base/nt/modular.(*OddPrimeFactors).ModInv":             "ModExpI has no failure result by API; the inverse is only selected (CondAssign) for negative exponents, callers pass units (recorded as the tree's behaviour, not judged)",
 	"pkg/base/nt/modular.(*OddPrimeSquareFactors).ModExpI -> pkg/base/nt/modular.(*OddPrimeSquareFactors).ModInv": "same as OddPrimeFactors.ModExpI",
-	"pkg/base/nt/num.(*Uint).TryInv -> pkg/base/nt/numct.(*ModulusBasic).ModInv":                                   "dominated by the u.IsUnit() failure guard: the inverse exists",
-	"pkg/base/nt/numct.(*Int).DivVarTime -> pkg/base/nt/numct.(*Nat).EuclideanDivVarTime":                          "explicit discard; quotient/remainder sign handling follows, divisor validity is the caller's contract in this var-time helper",
-	"pkg/base/nt/numct.(*Nat).SetRandomRangeH -> pkg/base/nt/numct.(*Nat).SetBytes":                                "Nat.SetBytes of a freshly read buffer cannot fail (any byte string is a natural)",
-	"pkg/base/nt/numct.LCM -> pkg/base/nt/numct.(*Nat).EuclideanDivVarTime":                                        "gcd of two non-zero values is non-zero (zero operands return earlier); the remainder is checked right after",
-	"pkg/base/nt/numct.LCM -> pkg/base/nt/numct.NewModulus":                                                        "gcd of two non-zero values is non-zero, NewModulus cannot fail",
-	"pkg/base/nt/numct.NewIntFromBytes -> pkg/base/nt/numct.(*Int).SetBytes":                                       "Int.SetBytes of an arbitrary byte string cannot fail",
-	"pkg/proofs/paillier/lp.(*Prover).Round4 -> pkg/base/nt/numct.(*ModulusBasic).ModInv":                          "N is coprime to phi(N) for a valid Paillier key held by the prover (own secret key)",
-	"pkg/proofs/paillier/lpdl.initRangeProtocol -> pkg/base/nt/numct.(*Nat).EuclideanDivVarTime":                   "division by the constant 3",
+	"pkg/base/nt/num.(*Uint).TryInv -> pkg/base/nt/numct.(*ModulusBasic).ModInv":                                  "dominated by the u.IsUnit() failure guard: the inverse exists",
+	"pkg/base/nt/numct.(*Int).DivVarTime -> pkg/base/nt/numct.(*Nat).EuclideanDivVarTime":                         "explicit discard; quotient/remainder sign handling follows, divisor validity is the caller's contract in this var-time helper",
+	"pkg/base/nt/numct.(*Nat).SetRandomRangeH -> pkg/base/nt/numct.(*Nat).SetBytes":                               "Nat.SetBytes of a freshly read buffer cannot fail (any byte string is a natural)",
+	"pkg/base/nt/numct.LCM -> pkg/base/nt/numct.(*Nat).EuclideanDivVarTime":                                       "gcd of two non-zero values is non-zero (zero operands return earlier); the remainder is checked right after",
+	"pkg/base/nt/numct.LCM -> pkg/base/nt/numct.NewModulus":                                                       "gcd of two non-zero values is non-zero, NewModulus cannot fail",
+	"pkg/base/nt/numct.NewIntFromBytes -> pkg/base/nt/numct.(*Int).SetBytes":                                      "Int.SetBytes of an arbitrary byte string cannot fail",
+	"pkg/proofs/paillier/lp.(*Prover).Round4 -> pkg/base/nt/numct.(*ModulusBasic).ModInv":                         "N is coprime to phi(N) for a valid Paillier key held by the prover (own secret key)",
+	"pkg/proofs/paillier/lpdl.initRangeProtocol -> pkg/base/nt/numct.(*Nat).EuclideanDivVarTime":                  "division by the constant 3",
 }
+
 func checkC18(r *Run) { genericGuards(r) }
 func checkC19(r *Run) { genericGuards(r) }
